@@ -22,6 +22,7 @@ CONSTANTS
  Variant = "%s"
  StartWithMain = %s
  Overwrite = TRUE
+ StartReg = TRUE
  Names <- MCNames
  MainFile = "main"
  Dirs <- MCDirs
@@ -39,10 +40,13 @@ CHECK_DEADLOCK FALSE
 """
 
 
-def mc(ctx, maxops, enforce_new, variant, start_main):
-    res = tlc.run('MC_Loader', MC_CFG % (maxops, 'TRUE' if enforce_new else 'FALSE', variant, 'TRUE' if start_main else 'FALSE'),
+def mc(ctx, maxops, enforce_new, variant, start_main, start_reg=True):
+    cfg = MC_CFG % (maxops, 'TRUE' if enforce_new else 'FALSE', variant, 'TRUE' if start_main else 'FALSE')
+    if not start_reg:
+        cfg = cfg.replace(' StartReg = TRUE', ' StartReg = FALSE')
+    res = tlc.run('MC_Loader', cfg,
                   coverage=not ctx.quick, timeout=3400)
-    ctx.add_mc('MC_Loader(MaxOps=%d,%s,enforce_new=%s,start_main=%s)' % (maxops, variant, enforce_new, start_main), res)
+    ctx.add_mc('MC_Loader(MaxOps=%d,%s,enforce_new=%s,start_main=%s,defaults %s)' % (maxops, variant, enforce_new, start_main, 'registered first' if start_reg else 'registered late'), res)
     return res
 
 
@@ -52,7 +56,9 @@ def random_history(rng, n):
         h.append(('write', 'main', rng.choice(lc.KINDS)))
     for _ in range(n):
         r = rng.random()
-        if r < 0.45:
+        if r < 0.06:
+            h.append(('register',))          # a default registered after the enforcer has been in use
+        elif r < 0.45:
             h.append(rng.choice(lc.FS_OPS))
         elif r < 0.9:
             h.append(('load', False))
@@ -73,12 +79,15 @@ def run(ctx):
     if q:
         mc(ctx, 3, False, 'renamed', True)
         mc(ctx, 3, True, 'plain', False)
+        mc(ctx, 2, False, 'split', True, start_reg=False)
     else:
         for variant in ('plain', 'renamed', 'split'):
             for en in (False, True):
                 mc(ctx, 4, en, variant, True)
         mc(ctx, 4, False, 'renamed', False)
         mc(ctx, 5, False, 'plain', True)
+        mc(ctx, 3, False, 'split', True, start_reg=False)
+        mc(ctx, 3, True, 'renamed', False, start_reg=False)
     rng = ctx.rng
     groups = {}
     n_hist = 0
@@ -103,6 +112,9 @@ def run(ctx):
         add(rng.choice(['plain', 'renamed', 'renamed', 'split', 'same']), rng.random() < 0.5, start + inter)
     # the scenarios the statement names explicitly
     named = [
+        # a default registered after the first use of the enforcer is merged at the next load
+        [('load', False), ('register',), ('load', False), ('write', 'main', 'old'), ('load', False)],
+        [('write', 'main', 'new'), ('load', False), ('register',), ('load', False), ('delete', 'main'), ('load', False)],
         # byte-identical content written again (same bytes, newer mtime; re-created after a delete)
         [('write', 'main', 'fixed'), ('load', False), ('delete', 'main'), ('load', False), ('write', 'main', 'fixed'), ('load', False)],
         [('write', 'main', 'fixed'), ('write', 'd1/a', 'fixed'), ('load', False), ('delete', 'd1/a'), ('load', False), ('write', 'd1/a', 'fixed'), ('load', False),
@@ -124,7 +136,7 @@ def run(ctx):
     for (variant, en), hs in sorted(groups.items()):
         traces = []
         for h in hs:
-            tr = lc.run_history(rng, variant, en, h, via=rng.choice(['enforce', 'enforce', 'rules']))
+            tr = lc.run_history(rng, variant, en, h, via=rng.choice(['enforce', 'enforce', 'rules']), late=any(op[0] == 'register' for op in h))
             traces.append(tr)
             longest = max(longest, len(tr))
         n_hist += len(traces)
